@@ -564,6 +564,13 @@ impl LuaIndex for LuaTypeIndex {
             }
         }
 
+        // a super clause can be filed under a type this file did not declare (a class name that
+        // resolved to another file's declaration through `---@using`): sweep those as well
+        self.supers.retain(|_, supers| {
+            supers.retain(|s| s.file_id != file_id);
+            !supers.is_empty()
+        });
+
         if let Some(type_owners) = self.in_filed_type_owner.remove(&file_id) {
             for type_owner in type_owners {
                 self.types.remove(&type_owner);
